@@ -35,6 +35,7 @@ type LoopLet struct {
 
 type LoopSpec struct {
 	Lets       []LoopLet
+	Decreases  []*Clause // variants: non-negative at the head, smaller at every back edge (termination of the loop)
 	Unroll     int
 	Invariants []*Clause
 	Modifies   []*Clause // extra havoc inside the loop
@@ -322,6 +323,8 @@ func (S *Specs) LoadFile(path string, goFile bool) error {
 					return fmt.Errorf("%s: let needs '='", src)
 				}
 				ls.Lets = append(ls.Lets, LoopLet{strings.TrimSpace(body[4:eq]), mkClause("let", strings.TrimSpace(body[eq+1:]))})
+			case strings.HasPrefix(body, "decreases"):
+				ls.Decreases = append(ls.Decreases, mkClause("decreases", strings.TrimSpace(body[9:])))
 			case strings.HasPrefix(body, "modifies"):
 				for _, part := range splitTop(strings.TrimSpace(body[8:]), ',') {
 					ls.Modifies = append(ls.Modifies, mkClause("modifies", strings.TrimSpace(part)))
@@ -503,6 +506,7 @@ func (S *Specs) Finish() error {
 			for _, lt := range l.Lets {
 				all = append(all, lt.C)
 			}
+			all = append(all, l.Decreases...)
 			all = append(all, l.Invariants...)
 			all = append(all, l.Modifies...)
 		}
